@@ -2,6 +2,7 @@
 mod c01;
 mod c02;
 mod c03;
+mod c08;
 mod strsweep;
 mod common;
 mod enumr;
@@ -36,6 +37,7 @@ fn main() {
                 "C01" => c01::run(tier),
                 "C02" => c02::run(tier),
                 "C03" => c03::run(tier),
+                "C08" => c08::run(tier),
                 _ => {
                     eprintln!("unknown property {id}");
                     2
